@@ -29,9 +29,18 @@ pub fn run(seed: u64, tier: &str, out: &mut Out) {
         std::mem::forget(pb);
         let inner: String = { let cs: Vec<char> = line.chars().collect(); if cs.len() >= 2 { cs[1..cs.len() - 1].iter().collect() } else { String::new() } };
         let got_cols = inner.width();
-        let verdict = if wsum <= width { if got_cols == width { "ok".to_string() } else { format!("FAIL padded field has {got_cols} columns, wanted {width}: {inner:?}") } }
-            else if !trunc { if inner == content { "ok".into() } else { format!("FAIL untruncated content changed: {inner:?}") } }
-            else if got_cols == width { "ok".into() } else { format!("FAIL truncated field has {got_cols} columns, wanted {width}: content={content:?} got={inner:?}") };
+        // ASCII-like content (every character one byte and one column): the statement fixes the result exactly
+        let plain = content.chars().all(|c| c.len_utf8() == 1 && c.width() == Some(1));
+        let verdict = if wsum <= width {
+                let d = width - wsum; let (l, r) = match ach { "l" => (0, d), "r" => (d, 0), _ => (d / 2, d - d / 2) };
+                if inner == format!("{}{}{}", " ".repeat(l), content, " ".repeat(r)) { "ok".to_string() } else { format!("FAIL pad field of width {width}, content {content:?}: {inner:?}") } }
+            else if !trunc { if inner == content { "ok".into() } else { format!("FAIL no-trunc untruncated content changed: {inner:?}") } }
+            else if plain {
+                let e = wsum - width; let skip = match ach { "l" => 0, "r" => e, _ => e / 2 };
+                let want: String = content.chars().skip(skip).take(width).collect();
+                if inner == want { "ok".into() } else { format!("FAIL trunc content={content:?} width={width} align={ach} got={inner:?} wanted={want:?}") } }
+            else if got_cols == width { "ok".into() }
+            else { format!("FAIL F11-trunc-by-bytes truncated field has {got_cols} columns, wanted {width}: content={content:?} got={inner:?}") };
         let glyphs = if content.is_empty() { "-".to_string() } else { content.chars().map(|c| format!("{}:{}:{}", c as u32, c.width().unwrap_or(0), c.len_utf8())).collect::<Vec<_>>().join(",") };
         out.emit(&format!("PAD {ach} {} {width} {glyphs}", if trunc { 1 } else { 0 }), &format!("{} ORACLE {verdict}", inner.chars().map(|c| (c as u32).to_string()).collect::<Vec<_>>().join(".")));
     }
